@@ -36,6 +36,7 @@ ASSUMPTIONS = [
     "10 short pulses, per-bit sync+data pulse, LSB first; turbo: 3/1-sample high runs) is the BK-0010 tape "
     "format as the property states it",
     "tape names longer than 16 bytes are errors (run fails), so they are outside 'requested output written'",
+    "the independent tape reader decodes the four reference tapes shipped in tests/resources (checked at worker start)",
 ]
 
 _digest = c07._digest
@@ -397,3 +398,19 @@ def replay(ns, v):
     for key, what in found:
         res["violations"].append({"key": key, "what": what})
     return res
+
+
+def prepare(ns, tier):
+    """The independent tape reader must decode the repository's own reference tapes (tests/resources/*.wav,
+    produced by the previous generation of pdpy11): a reader that cannot is a harness error."""
+    import glob
+    from ..boot import REPO
+    for path in sorted(glob.glob(os.path.join(REPO, "tests", "resources", "*.wav"))):
+        with open(path, "rb") as f:
+            blob = f.read()
+        try:
+            d = (containers.read_bk_turbo_wav if ".turbo." in os.path.basename(path) else containers.read_bk_wav)(blob)
+        except containers.DecodeError as ex:
+            raise procs.HarnessError("independent reader cannot decode reference tape %s: %s" % (path, ex))
+        if d["checksum"] != containers.bk_checksum(d["data"]) or len(d["data"]) != d["length"]:
+            raise procs.HarnessError("reference tape %s decodes inconsistently" % path)
